@@ -1046,8 +1046,8 @@ func (it *mapIter) next(p *Path) Tuple {
 }
 
 type strIter struct {
-	s    string
-	i    int
+	s string
+	i int
 }
 
 func (it *strIter) next(p *Path) Tuple {
